@@ -7,7 +7,6 @@ import (
 	"bytes"
 	"fmt"
 	"math/big"
-	"reflect"
 	"strings"
 
 	"github.com/LemoFoundationLtd/lemochain-core/chain/types"
@@ -283,11 +282,6 @@ func schedule() []*codec {
 		}
 	}
 	return out
-}
-
-// zeroPtr returns a pointer to a zero value of the codec's type.
-func (c *codec) zeroPtr() reflect.Value {
-	return reflect.New(reflect.TypeOf(c.fresh()).Elem())
 }
 
 func firstDiff(a, b string) string {
